@@ -452,6 +452,10 @@ func cmdC16Perm(seed uint64, n int, dir string) {
 			}
 			if r.chance(30) {
 				body = fmt.Sprintf("t := &T%d{v: a}\n\treturn t.m0(%d)", r.intn(nt), i)
+			} else if r.chance(35) {
+				// a second imported package, needed by some declarations only: the files of a layout then import
+				// different sets (a grouped import in the files that need it)
+				body = fmt.Sprintf("return int(len(strings.Repeat(\"ab\", %d))) + a", i+1)
 			}
 			hoist = append(hoist, fmt.Sprintf("func f%d(a int) int {\n\t%s\n}\n", i, body))
 		}
@@ -506,7 +510,12 @@ func cmdC16Perm(seed uint64, n int, dir string) {
 			cuts = append(cuts, len(stream))
 			sort.Ints(cuts)
 			for k := 0; k+1 < len(cuts); k++ {
-				src := "package main\n\nimport \"fmt\"\n\nvar _ = fmt.Sprint\n\n" + strings.Join(stream[cuts[k]:cuts[k+1]], "\n")
+				chunk := strings.Join(stream[cuts[k]:cuts[k+1]], "\n")
+				imp := "import \"fmt\"\n"
+				if strings.Contains(chunk, "strings.") {
+					imp = "import (\n\t\"fmt\"\n\t\"strings\"\n)\n"
+				}
+				src := "package main\n\n" + imp + "\nvar _ = fmt.Sprint\n\n" + chunk
 				fs[fmt.Sprintf("main/f%02d.go", k)] = &fstest.MapFile{Data: []byte(src)}
 			}
 			return fs
